@@ -102,6 +102,9 @@ class CompositeBasis(AbstractBasis):
         return Nbfun
 
     def split(self, x):
+        if self.equal_dofnum:
+            # the bases share one numbering
+            return [(x, basis) for basis in self.bases]
         return list(zip(
             np.split(x, np.cumsum([basis.N
                                    for basis in self.bases])[:-1]),
@@ -116,6 +119,10 @@ class CompositeBasis(AbstractBasis):
         return rep
 
     def interpolate(self, x):
+
+        if self.equal_dofnum:
+            # the bases share one numbering
+            return tuple(basis.interpolate(x) for basis in self.bases)
 
         # find slice indices
         ixs = [0]
